@@ -191,6 +191,10 @@ def step (s : S) (ws : List String) : S × String :=
         | _ => allRoot t.root
       ({ s with iters := s.iters.push es }, s!"i{s.iters.size}")
     | _, _ => (s, "bad-op")
+  | ["iterall", i] =>
+    match i.toNat? >>= (s.iters[·]?) with
+    | some es => (s, showEntries es)
+    | none => (s, "bad-op")
   | ["next", i, n] =>
     match i.toNat?, n.toNat? with
     | some i, some n =>
